@@ -57,7 +57,7 @@ package icmp
 //@      && ip.Id == 1 + id0 && 1 <= ip.Id && ip.Id <= 65535 && ip.TTL == f.ttl && ip.Flags == f.flags && ip.Length == f.length && ip.Protocol == f.proto
 //@ pred ethhdr(e *layers.Ethernet, r *scan.Request) = fresh(e) && e.SrcMAC == r.SrcMAC && e.DstMAC == r.DstMAC && e.EthernetType == 2048
 //@ func (*PacketFiller).Fill
-//@   props C05 C11 C17 C01 C02 C19 C07
+//@   props C05 C11 C17 C01 C02 C19 C07 C13
 //@   observe rand.Intn, layers.CreateICMPv4TypeCode, gopacket.SerializeLayers
 //@   entry row vpn:   [call rand.Intn(65535) as (id0) ; call rand.Intn(65535) as (id1) ; call layers.CreateICMPv4TypeCode(f.typ, f.code) as (tc) ; call gopacket.SerializeLayers(packet, bind_opt, bind_ls) as (se)]
 //@                       when f.vpnMode && ret == se && opt.ComputeChecksums && (opt.FixLengths <==> f.length == 0) && len(ls) == 3
@@ -107,7 +107,7 @@ package icmp
 // constructor: defaults (TTL 64, protocol ICMP, don't-fragment, echo request, 48 random payload bytes) are set BEFORE
 // the options run, then the options in order, nothing afterwards (so an explicitly requested empty payload stays empty)
 //@ func NewPacketFiller
-//@   props C05 C01 C02 C11 C17 C19 C07
+//@   props C05 C01 C02 C11 C17 C19 C07 C13
 //@   observe rand.Read, o
 //@   entry row init:  [call rand.Read(bind_p)] when len(p) == 48 -> loop 0
 //@   loop 0 row apply: [call o(bind_x)] when fresh(x) -> continue
@@ -135,7 +135,7 @@ package icmp
 
 // the scan method is the plain composition of its three parts: each role is forwarded unchanged
 //@ func (*ScanMethod).Packets
-//@   props C01 C07 C05 C11 C13 C16 C19 C12
+//@   props C01 C07 C05 C11 C13 C16 C19 C12 C02 C17
 //@   observe Packets
 //@   entry row forward: [call Packets(recv.PacketSource, _, _) as (c)] when ret == c -> exit
 //@ func (*ScanMethod).ProcessPacketData
